@@ -6,7 +6,7 @@ from typing import Dict, List, Optional, Set, Tuple
 
 from ..db import ProgramDB, FuncInfo, ClassInfo, AnalysisError, unparse, own_nodes, dotted
 from ..cfg import CFG, Node
-from ..facts import own_calls, call_attr, call_name, local_defs, resolve_call_target
+from ..facts import own_calls, call_attr, call_name, local_defs, resolve_call_target, is_cache_switch_call
 from ..framework import inst, HOLDS, VIOLATION, UNDECIDED, INFO, Instance
 from ..boolexpr import guards_of, guard_table
 from .history import BUILTIN_MUTATORS, _mutators_of_type, _field_types, _cache_receivers, coverage_writers
@@ -174,8 +174,7 @@ def rule_result_no_alias(db: ProgramDB) -> List[Instance]:
 def _ce_atom(db, fn):
     def atom_of(e: ast.AST) -> Optional[str]:
         if isinstance(e, ast.Call):
-            t = resolve_call_target(db, fn, e)
-            if isinstance(t, FuncInfo) and t.qualname == "cache_data:is_caching_enabled":
+            if is_cache_switch_call(db, fn, e):
                 return "ce"
         if isinstance(e, (ast.BoolOp, ast.IfExp, ast.Constant)) or (isinstance(e, ast.UnaryOp) and isinstance(e.op, ast.Not)):
             return None
@@ -387,4 +386,64 @@ def rule_insert_retrievable(db: ProgramDB) -> List[Instance]:
                         f"{shape}: index written={w_idx}, flat store written={w_flat}; retrieve(from_index=True) reads only the "
                         f"index, while the coverage check treats an empty assignment as covering every lookup: the output is "
                         f"claimed covered and never returned"))
+    return out
+
+
+# ---------------------------------------------------------------------------------- SELECTOR-NO-CACHE
+def rule_selector_no_cache(db: ProgramDB) -> List[Instance]:
+    """Conclusion selectors decide which conclusions apply to a row from what evaluating their operands leaves behind
+    (the operands' _conclusion_ sets and truth flags).  A row served from a result cache has none of that, so for every
+    selector class every result-cache read in the evaluation code it dispatches to must be switched off."""
+    from ..facts import cache_switch_value_for
+    out = []
+    cs = db.cls("ConclusionSelector")
+    se = db.cls("SymbolicExpression")
+    # does the selector family actually depend on operand side effects?
+    depends = False
+    for c in cs.all_subclasses():
+        for m in c.methods.values():
+            src = unparse(m.node)
+            if "._conclusion_" in src and ("self.left" in src or "self.right" in src):
+                depends = True
+    if not depends:
+        out.append(inst("SELECTOR-NO-CACHE", INFO, cs, "ConclusionSelector", "selectors do not read their operands' conclusions"))
+        return out
+    for k in sorted(cs.all_subclasses(include_self=False), key=lambda c: c.name):
+        # evaluation generators k dispatches to: its own and the ones reached by super()
+        gens = []
+        for c in k.mro:
+            for name, m in c.methods.items():
+                if m.is_generator and (is_eval_method_name(name) or name.startswith("evaluate")) and m not in gens:
+                    gens.append(m)
+        sites = []
+        for m in gens:
+            recv = _cache_receivers(db, m)
+            for call in own_calls(m):
+                f = call.func
+                if isinstance(f, ast.Attribute) and f.attr in ("check", "retrieve") and unparse(f.value) in recv:
+                    sites.append((m, call))
+        for m, call in sites:
+            # the guard of the read must contain a switch accessor that is constant False for k
+            g = guards_of(call, m.node.body) or []
+            p = db.parent(call)
+            child = call
+            extra = []
+            while p is not None and not isinstance(p, ast.stmt):
+                if isinstance(p, ast.BoolOp) and isinstance(p.op, ast.And):
+                    idx = [i for i, v in enumerate(p.values) if v is child or any(x is child for x in ast.walk(v))]
+                    if idx:
+                        extra += [(v, True) for v in p.values[:idx[0]]]
+                child = p
+                p = db.parent(p)
+            off = False
+            for t, pol in list(g) + extra:
+                for x in ast.walk(t):
+                    if isinstance(x, ast.Call) and isinstance(x.func, ast.Attribute) and isinstance(x.func.value, ast.Name) \
+                            and x.func.value.id == "self" and pol and cache_switch_value_for(db, k, x.func.attr) == "off":
+                        off = True
+            out.append(inst("SELECTOR-NO-CACHE", HOLDS if off else VIOLATION, m, f"{k.name}<-{m.short}[{unparse(call)[:40]}]",
+                            f"for {k.name} this cache read is switched off" if off else
+                            f"{k.name} can serve rows of its operands from `{unparse(call.func.value)}` without evaluating them: "
+                            f"the conclusions (and truth flags) the selection reads are then those of an earlier row, so rows of "
+                            f"a rule tree lose or swap their conclusions on re-evaluation with caching enabled", line=call.lineno))
     return out
